@@ -4,6 +4,7 @@ import (
 	"crypto"
 	"fmt"
 	"net/url"
+	"strings"
 
 	"verif/gen/cfbgen"
 	"verif/gen/payload"
@@ -18,7 +19,7 @@ const subProduct = "zip-based (jar, apk, xap, vsix): canonical base archive x ON
 	"cab: folders {1,2} x reserve area {absent, 0, 20, 24 bytes} x file sizes {0,1,odd,32768+1}; " +
 	"scripts: 7 extensions x line end {LF, CRLF, CR} x final line end {yes,no} x BOM {none, UTF-8, UTF-16LE}; " +
 	"deb: control member odd/even x data member odd/even x extra member {none, one odd-sized}; " +
-	"pgp: mode {clearsign, inline, inline+armor, detached, detached+armor} x 9 message texts; " +
+	"pgp: mode {clearsign, inline, inline+armor, detached, detached+armor} x 14 message texts (incl. lines of 4095..19000 bytes); " +
 	"fixtures: every functest package incl. the third-party-signed ones (appx, vsix by 'ralph'; Rocky rpm; hyperv.cat; InRelease; dummy.pkg; Mach-O dummyapp), Mach-O also stripped of its signature and the two slices of the fat fixture; " +
 	"all of the above x 2 keys x {same path, new path}; canonical shapes and fixtures additionally after 1 and 2 prior relic signings"
 
@@ -291,6 +292,12 @@ func allShapes(thorough bool) []shape {
 		{"empty", ""},
 		{"only-newlines", "\n\n"},
 		{"release-file", string(shapes.Fixture("Release"))},
+		// lines around the sizes at which buffered line readers hand back pieces
+		{"line-of-4095-bytes", "first\n" + strings.Repeat("x", 4095) + "\nlast\n"},
+		{"line-of-4096-bytes", "first\n" + strings.Repeat("y", 4096) + "\nlast\n"},
+		{"line-of-4097-bytes", "first\n" + strings.Repeat("z", 4097) + "\nlast\n"},
+		{"line-of-8200-bytes-with-dash", "-" + strings.Repeat("w", 8199) + "\n"},
+		{"line-of-19000-bytes", strings.Repeat("0123456789", 1900) + "\nlast\n"},
 	}
 	for _, t := range texts {
 		t := t
